@@ -78,6 +78,8 @@ def find_reducers(facts):
         subs = [(bb, t) for bb, t in fn.calls() if _is_sub_call(t)]
         if not subs or len(fn.bbs) > 40:
             continue
+        if DF.sccs(fn):
+            continue        # a reduction helper is straight-line; loops (binary Euclid in `inverse`, ...) are other algorithms
         cd = DF.control_deps(fn)
         guarded = [(bb, t) for bb, t in subs if cd.get(bb)]
         if not guarded:
